@@ -279,12 +279,70 @@ def alpha_relocated(P, p, out, B, tick):
     return [[int(s), int(r[0]), int(r[1]), int(f)] for s, r, f in zip(same, R, F)]
 
 
+# Input representations of the SAME lattice coordinates (gamma has several concretisations; alpha and the expectation
+# are identical for all of them).  "f64-*": float64 (Grid2DIrregular / plain ndarray); "i64-ndarray": integer-dtype ndarray;
+# "int-irregular": Grid2DIrregular(values=[(int, int), ...]); "int-list": a plain Python list of int tuples (accepted for
+# mesh vertices only: the data grid is fancy-indexed by the library); "f32-*": float32.
+REPS_F64 = ("f64-irregular", "f64-ndarray")
+_OLD_CONTAINER = {"irregular": "f64-irregular", "ndarray": "f64-ndarray"}
+DYADIC_TICKS = (1.0, 0.5, 2.0 ** -6, 16.0)
+F32_MAX_N2 = 20000  # float32 keeps every exact decision only while squared magnified radii stay this small (gap >= 5e-5)
+
+
+def pick_tick(rng):
+    """Tick length; a whole tick (1.0) for a good share of the instances so that integer representations exist."""
+    return 1.0 if rng.random() < 0.35 else TICKS[int(rng.integers(0, len(TICKS)))]
+
+
+def represent(rep, a_int, tick, role="grid"):
+    """gamma: the lattice points a_int (N,2 integers) times tick in the representation `rep`."""
+    import autoarray as aa
+
+    a_int = np.asarray(a_int, dtype=np.int64).reshape(-1, 2)
+    f64 = a_int.astype(float) * tick
+    if rep == "f64-irregular":
+        return aa.Grid2DIrregular(values=f64.copy())
+    if rep == "f64-ndarray":
+        return f64.copy()
+    if rep in ("i64-ndarray", "int-irregular", "int-list"):
+        if float(tick) != int(tick):
+            raise core.MachineryError(f"integer representation asked for tick {tick}")
+        whole = a_int * int(tick)
+        if rep == "i64-ndarray":
+            return whole.astype(np.int64)
+        tuples = [(int(y), int(x)) for y, x in whole]
+        if rep == "int-list" and role == "mesh":
+            return tuples
+        return aa.Grid2DIrregular(values=tuples)
+    if rep == "f32-ndarray":
+        return f64.astype(np.float32)
+    if rep == "f32-irregular":
+        return aa.Grid2DIrregular(values=f64.astype(np.float32))
+    raise core.MachineryError(f"unknown representation {rep}")
+
+
+def alternative_reps(call, G, sbs, tick, P=None):
+    """The non-float64 representations in which this instance can be realised exactly."""
+    reps = []
+    if float(tick) == int(tick) and tick >= 1:
+        reps += ["i64-ndarray", "int-irregular"]
+        if P is not None and call == "relocated_mesh_grid_from":
+            reps.append("int-list")
+    if tick in DYADIC_TICKS and len(sbs):
+        B = G[sbs]
+        n, sb = len(B), B.sum(axis=0)
+        pts = G if P is None else np.concatenate([G[sbs], P])
+        if int(((n * pts - sb) ** 2).sum(axis=1).max()) <= F32_MAX_N2:
+            reps += ["f32-ndarray", "f32-irregular"]
+    return reps
+
+
 CALLS = ("relocated_grid_from", "mapper_grids_rectangular", "relocated_mesh_grid_from", "mapper_grids_delaunay",
          "mapper_grids_voronoi")
 
 
-def reloc_record(call, mask_spec, sub, form, grid_int, tick, pts_int=None, container="irregular", br=None, hist=0,
-                 prefix=None):
+def reloc_record(call, mask_spec, sub, form, grid_int, tick, pts_int=None, container=None, br=None, hist=0,
+                 prefix=None, rep=None):
     """One 'relocate' record: run the real entry point `call` on the lattice data grid (and mesh points).
     `br`: an existing relocator instance to be REUSED (history of `hist` earlier calls, listed in `prefix` for replay)."""
     import autoarray as aa
@@ -292,7 +350,9 @@ def reloc_record(call, mask_spec, sub, form, grid_int, tick, pts_int=None, conta
     h, w, u = mask_spec
     mask = _mask_of(h, w, u) if br is None else br.mask
     G = np.asarray(grid_int, dtype=np.int64).reshape(-1, 2)
-    rec = {"api": "relocate", "call": call, "h": h, "w": w, "u": [int(x) for x in u], "sub": [int(s) for s in sub],
+    rep = rep or _OLD_CONTAINER.get(container or "irregular", container)
+    container = rep
+    rec = {"api": "relocate", "call": call, "rep": rep, "h": h, "w": w, "u": [int(x) for x in u], "sub": [int(s) for s in sub],
            "form": form, "tick": tick, "container": container, "grid": G.tolist(), "bidx": [], "own": pts_int is None,
            "pts": [] if pts_int is None else np.asarray(pts_int, dtype=np.int64).reshape(-1, 2).tolist(),
            "out": [], "raised": False, "hist": int(hist), "lat": all(int(x) in (1, 2, 3, 4, 6, 12) for x in sub),
@@ -303,29 +363,30 @@ def reloc_record(call, mask_spec, sub, form, grid_int, tick, pts_int=None, conta
         sbs = np.asarray(br.sub_border_slim).astype(int).ravel()
         rec["bidx"] = [int(x) for x in sbs]
         g = G.astype(float) * tick
-        wrap = (lambda a: aa.Grid2DIrregular(values=a.copy())) if container == "irregular" else (lambda a: a.copy())
+        # the data grid and the mesh vertices in the representation of this record (same coordinates in all of them)
+        gwrap = lambda: represent(rep, G, tick, role="grid")
         if pts_int is None:
             P, p = G, g
             if call == "relocated_grid_from":
-                out = br.relocated_grid_from(grid=wrap(g))
+                out = br.relocated_grid_from(grid=gwrap())
             elif call == "mapper_grids_rectangular":
                 out = aa.mesh.Rectangular(shape=(3, 3)).mapper_grids_from(
-                    mask=mask, source_plane_data_grid=wrap(g), border_relocator=br).source_plane_data_grid
+                    mask=mask, source_plane_data_grid=gwrap(), border_relocator=br).source_plane_data_grid
             elif call in ("mapper_grids_delaunay", "mapper_grids_voronoi"):
                 mesh = aa.mesh.Delaunay() if call.endswith("delaunay") else aa.mesh.Voronoi()
-                out = mesh.mapper_grids_from(mask=mask, source_plane_data_grid=wrap(g), border_relocator=br,
-                                             source_plane_mesh_grid=wrap(np.array([[0.0, 0.0], [1.0, 0.0], [0.0, 1.0], [1.0, 1.5]]))).source_plane_data_grid
+                out = mesh.mapper_grids_from(mask=mask, source_plane_data_grid=gwrap(), border_relocator=br,
+                                             source_plane_mesh_grid=aa.Grid2DIrregular(values=np.array([[0.0, 0.0], [1.0, 0.0], [0.0, 1.0], [1.0, 1.5]]))).source_plane_data_grid
             else:
                 raise core.MachineryError(f"unknown call {call}")
         else:
             P = np.asarray(pts_int, dtype=np.int64).reshape(-1, 2)
             p = P.astype(float) * tick
             if call == "relocated_mesh_grid_from":
-                out = br.relocated_mesh_grid_from(grid=wrap(g), mesh_grid=wrap(p))
+                out = br.relocated_mesh_grid_from(grid=gwrap(), mesh_grid=represent(rep, P, tick, role="mesh"))
             elif call in ("mapper_grids_delaunay", "mapper_grids_voronoi"):
                 mesh = aa.mesh.Delaunay() if call.endswith("delaunay") else aa.mesh.Voronoi()
-                out = mesh.mapper_grids_from(mask=mask, source_plane_data_grid=wrap(g), border_relocator=br,
-                                             source_plane_mesh_grid=wrap(p)).source_plane_mesh_grid
+                out = mesh.mapper_grids_from(mask=mask, source_plane_data_grid=gwrap(), border_relocator=br,
+                                             source_plane_mesh_grid=represent(rep, P, tick, role="mesh")).source_plane_mesh_grid
             else:
                 raise core.MachineryError(f"unknown call {call}")
         out = np.asarray(out, dtype=float)
@@ -376,19 +437,22 @@ def bag_records(args):
         taken = set(sbs.tolist())
         free = [k for k in range(N) if k not in taken]
         G[free[: len(pts)]] = np.array(pts, dtype=np.int64)
-        tick = TICKS[int(rng.integers(0, len(TICKS)))]
+        tick = pick_tick(rng)
         style = int(rng.integers(0, 4))
         if style == 0:
-            out.append(reloc_record("relocated_grid_from", mask_spec, sub, "int", G, tick))
+            args_ = ("relocated_grid_from", mask_spec, sub, "int", G, tick, None, "f64-irregular")
         elif style == 1:
-            out.append(reloc_record("mapper_grids_rectangular", mask_spec, sub, "array2d", G, tick))
+            args_ = ("mapper_grids_rectangular", mask_spec, sub, "array2d", G, tick, None, "f64-irregular")
         elif style == 2:
             # the enumerated points as MESH vertices against a data grid that only holds the border (and copies of it)
             G2 = np.tile(np.array(bag[0], dtype=np.int64), (N, 1))
             G2[sbs] = G[sbs]
-            out.append(reloc_record("relocated_mesh_grid_from", mask_spec, sub, "int", G2, tick, pts_int=np.array(pts)))
+            args_ = ("relocated_mesh_grid_from", mask_spec, sub, "int", G2, tick, np.array(pts), "f64-irregular")
         else:
-            out.append(reloc_record("relocated_grid_from", mask_spec, sub, "ndarray", G, tick, container="ndarray"))
+            args_ = ("relocated_grid_from", mask_spec, sub, "ndarray", G, tick, None, "f64-ndarray")
+        call, ms, sb_, fm, GG, tk, PP, rep0 = args_
+        for rep in [rep0] + alternative_reps(call, GG, sbs, tk, PP):  # the same instance in every exact representation
+            out.append(reloc_record(call, ms, sb_, fm, GG, tk, pts_int=PP, rep=rep))
     return out
 
 
@@ -485,11 +549,11 @@ def random_relocation_records(args):
         if len(nearc):  # deep inside: at and around the centroid
             P[nearc] = c + rng.integers(-3, 4, size=(len(nearc), 2))
         P = _fit_range(P, sbs)
-        tick = TICKS[int(rng.integers(0, len(TICKS)))]
+        tick = pick_tick(rng)
         spec = (h, w, u)
-        container = "irregular" if k % 4 else "ndarray"
         calls = ["relocated_grid_from", "mapper_grids_rectangular", "mapper_grids_delaunay", "relocated_grid_from"]
-        out.append(reloc_record(calls[k % 4], spec, sub, form, P, tick, container=container))
+        for rep in ["f64-irregular" if k % 4 else "f64-ndarray"] + alternative_reps(calls[k % 4], P, sbs, tick):
+            out.append(reloc_record(calls[k % 4], spec, sub, form, P, tick, rep=rep))
         # mesh vertices: inside, far outside, copies of border and of interior data points
         nm = int(rng.integers(3, 25))
         if N <= 80 and k % 2 == 0:
@@ -501,7 +565,8 @@ def random_relocation_records(args):
         mcall = ["relocated_mesh_grid_from", "mapper_grids_delaunay", "mapper_grids_voronoi"][k % 3]
         if len({tuple(x) for x in Pm.tolist()}) < 4:
             mcall = "relocated_mesh_grid_from"  # triangulations need distinct vertices
-        out.append(reloc_record(mcall, spec, sub, form, P, tick, pts_int=Pm, container="irregular"))
+        for rep in ["f64-irregular"] + alternative_reps(mcall, P, sbs, tick, Pm):
+            out.append(reloc_record(mcall, spec, sub, form, P, tick, pts_int=Pm, rep=rep))
     return out
 
 
@@ -565,14 +630,16 @@ def history_records(args):
         for g in sorted({g for _, g in hist}):
             A, d, t = HIST_MAPS[(g - 1) % len(HIST_MAPS)]
             P = (base @ A.T) // d + np.array(t) + rng.integers(-6, 7, size=base.shape)
-            grids[g] = (_special_points(rng, P, sbs), TICKS[int(rng.integers(0, len(TICKS)))])
+            grids[g] = (_special_points(rng, P, sbs), pick_tick(rng))
         prefix = []
         for k, (op, g) in enumerate(hist):
             P, tick = grids[g]
             call = HIST_OPS[op]
             M = _mesh_points(rng, P, sbs, int(rng.integers(6, 16))) if op in ("M", "D") else None
-            out.append(reloc_record(call, spec, sub, form, P, tick, pts_int=M, br=br, hist=k, prefix=list(prefix)))
-            prefix.append({"call": call, "grid": P.tolist(), "tick": tick, "pts": None if M is None else M.tolist()})
+            reps = ["f64-irregular", "f64-ndarray"] + 2 * alternative_reps(call, P, sbs, tick, M)
+            rep = reps[int(rng.integers(0, len(reps)))]
+            out.append(reloc_record(call, spec, sub, form, P, tick, pts_int=M, br=br, hist=k, prefix=list(prefix), rep=rep))
+            prefix.append({"call": call, "grid": P.tolist(), "tick": tick, "pts": None if M is None else M.tolist(), "rep": rep})
     return out
 
 
@@ -593,7 +660,7 @@ def validate(ctx, records, tag, chunk_sel=4000, chunk_rel=100):
     rel = [r for r in records if r["api"] != "select"]
     chunks = [sel[k: k + chunk_sel] for k in range(0, len(sel), chunk_sel)]
     chunks += [rel[k: k + chunk_rel] for k in range(0, len(rel), chunk_rel)]
-    keep = ("api", "id", "h", "w", "u", "sub", "sbs", "sbg", "bslim", "call", "grid", "bidx", "own", "pts", "out", "raised", "hist", "lat")
+    keep = ("api", "id", "h", "w", "u", "sub", "sbs", "sbg", "bslim", "call", "grid", "bidx", "own", "pts", "out", "raised", "hist", "lat", "rep")
     rejects = []
 
     def one(a):
@@ -611,7 +678,7 @@ def validate(ctx, records, tag, chunk_sel=4000, chunk_rel=100):
             what = (f"sub_border_slim/sub_border_grid on {rec['h']}x{rec['w']} mask u={rec['u']} sub={rec['sub']} "
                     f"geom={rec['geom']}: got sbs={rec['sbs']}; failed {rj['clauses']}")
         else:
-            what = (f"{rec['call']} (call #{rec.get('hist', 0) + 1} on this relocator instance) on {rec['h']}x{rec['w']} mask u={rec['u']} sub={rec['sub'][:8]}.. tick={rec['tick']} "
+            what = (f"{rec['call']} [{rec.get('rep')}] (call #{rec.get('hist', 0) + 1} on this relocator instance) on {rec['h']}x{rec['w']} mask u={rec['u']} sub={rec['sub'][:8]}.. tick={rec['tick']} "
                     f"({len(rec['grid'])} grid points, {len(rec['bidx'])} border points): failed {rj['clauses']}; "
                     f"{rec.get('error', '')} want={str(rj.get('want'))[:400]}")
         ctx.violation(rj["sig"], what, {"record": rec, "failed_clauses": rj["clauses"], "spec_wanted": rj.get("want")},
@@ -692,7 +759,16 @@ def run(ctx):
              "of the extreme pixels); the statement names the bounding box of the unmasked region. TLC proves inside the bound "
              "(SelCodeShapeAgrees, SelCodeCentreClose) that the two centres differ by less than half a pixel and always select "
              "a valid farthest sub-pixel, so the difference is not observable")
+    by_rep = {}
+    for r in relrecs:
+        by_rep[r["rep"]] = by_rep.get(r["rep"], 0) + 1
+    ctx.note(f"input representations of the same lattice coordinates (calls per representation): {by_rep}; every representation "
+             f"is judged against the same exact expectation (integer representations where the tick is a whole number, which "
+             f"holds for about half of the instances; float32 where all squared magnified radii are <= {F32_MAX_N2} and the tick is dyadic)")
     ctx.assumptions = [
+        "a plain Python list is used as a representation for mesh vertices only (the library fancy-indexes the data grid, "
+        "which a list does not support on the unchanged tree); float32 realisations are restricted to small instances because "
+        "float32 arithmetic inside the library cannot keep the exact interior / nearest-border decisions for larger coordinates",
         "relocation inputs are integer lattice points times a tick (dyadic and non-dyadic ticks); squared distances are exact "
         "integers, so interior / outside / nearest-border-tie decisions are exact; results are compared in fixed point with the "
         "rounding bound derived in Trace_Relocation.tla (float evaluation error < 1e-6 units is absorbed by the +1 slack)",
@@ -718,11 +794,11 @@ def replay(ctx, rp):
             br = _relocator(_mask_of(*spec), rec["sub"], rec["form"])
             for k, c in enumerate(rec["prefix"]):
                 reloc_record(c["call"], spec, rec["sub"], rec["form"], np.array(c["grid"]), c["tick"],
-                             pts_int=None if c["pts"] is None else np.array(c["pts"]), br=br, hist=k)
+                             pts_int=None if c["pts"] is None else np.array(c["pts"]), br=br, hist=k, rep=c.get("rep"))
         recs = [reloc_record(rec["call"], spec, rec["sub"], rec["form"], np.array(rec["grid"]), rec["tick"],
                              pts_int=None if rec["own"] else np.array(rec["pts"]),
-                             container=rec.get("container", "irregular"), br=br, hist=len(rec.get("prefix") or []),
-                             prefix=rec.get("prefix"))]
+                             container=rec.get("container", "irregular"), rep=rec.get("rep"), br=br,
+                             hist=len(rec.get("prefix") or []), prefix=rec.get("prefix"))]
     rej = validate(ctx, recs, "C18-replay")
     print("replayed", len(recs), "record(s); rejected:", [r["clauses"] for r in rej])
     return ctx.finish()
